@@ -69,7 +69,7 @@ def weight(c):
 
 
 def main():
-    cr = CheckRun("C09", "model_checking", default_budget=(300, 2400))
+    cr = CheckRun("C09", "model_checking", default_budget=(900, 7200))
     with build.Scratch("C09") as sd:
         exe = sched.build_explorer(sd, "pool_explore", HARNESS, REPO_SRCS)
         if cr.replay:
@@ -189,6 +189,8 @@ def main():
 
         # block processor on top of the same controlled pool, compressor failing on a chosen block: every call must return
         bp_cfgs = []
+        if not cr.groups and cr.time_left() <= 40:
+            cr.cap("deadline before the block-processor failure scenarios")
         if not cr.groups and cr.time_left() > 40:
             bexe = sched.build_bp_explorer(sd)
             scen = ["!1", "a1,!1,b1", "a2+q3,!2+q3,+q3", "+r20,!1,+s20,+t20"] if cr.quick else \
